@@ -77,6 +77,16 @@ def table_file(entries: list[tuple[str, bytes]]) -> str:
     return "".join(f"{code.hex().upper() if i % 2 else code.hex()}={text}\n" for i, (text, code) in enumerate(entries))
 
 
+def parse_table_file(text: str) -> list[tuple[str, bytes]]:
+    """HEX=text lines (as written by table_file)"""
+    out = []
+    for ln in text.split("\n"):
+        if "=" in ln:
+            code, t = ln.split("=", 1)
+            out.append((t, bytes.fromhex(code)))
+    return out
+
+
 def selftest() -> None:
     e = [("a", b"\x01"), ("b", b"\x02"), ("ab", b"\x03"), ("abc", b"\x04\x05"), (" ", b"\xff")]
     assert encode(e, "abcab a") == b"\x04\x05\x03\xff\x01"
